@@ -783,7 +783,7 @@ def _canon_unit(label: str, o: Any) -> Any:
 
 def unit_correspondence(ctx: Ctx, st: Optional[LeanStatus], res: Result) -> None:
     rng = ctx.sub_rng("unit")
-    n = ctx.budget(400, 10000)
+    n = ctx.budget(400, 6000)
     cases = []
     for _ in range(n):
         s = gen_schema(rng)
@@ -892,6 +892,12 @@ def judge_full(ctx: Ctx, st: Optional[LeanStatus], res: Result, cases: List[Dict
                     trig = TRIGGER_F1
             res.failures.append(Failure(f["sig"], trig, {"schema": case["schema"], "queries": case["queries"], "flags": f["flags"],
                                                          "custom": custom, "closure_check": case.get("closure_check", True)}, f["detail"]))
+    broken = [o for o in all_obs if o["skipped"]]
+    if label != "corpus" and len(broken) * 2 > len(all_obs):
+        # the generated inputs are valid: if the unpruned package can no longer be produced/imported for most of
+        # them, the observer (or the generator's entry point) changed and nothing was compared
+        res.mismatches.append(Mismatch("package-generation", {"label": label, "cases": len(all_obs)},
+                                       f"observer: unpruned package unusable on {len(broken)} cases, e.g. {broken[0]['skipped'][:200]}", None))
     if st is not None and st.driver_ok and lines:
         outs = common.run_driver(PROP, lines)
         for (lab, inp, impl), model in zip(expect, outs):
@@ -957,11 +963,11 @@ def run(ctx: Ctx, st: Optional[LeanStatus]) -> Result:
         unit_correspondence(ctx, st, res)
         ctx.log(f"unit correspondence done: evaluations={res.evaluations} mismatches={len(res.mismatches)}")
         rng = ctx.sub_rng("full")
-        cases = [gen_case(rng) for _ in range(ctx.budget(70, 1200))]
+        cases = [gen_case(rng) for _ in range(ctx.budget(70, 700))]
         judge_full(ctx, st, res, cases, custom=False, drive=True, label="full")
         ctx.log(f"package correspondence + oracle done: failures={len(res.failures)} mismatches={len(res.mismatches)}")
         rngc = ctx.sub_rng("custom")
-        ccases = [gen_case(rngc) for _ in range(ctx.budget(12, 200))]
+        ccases = [gen_case(rngc) for _ in range(ctx.budget(12, 120))]
         judge_full(ctx, st, res, ccases, custom=True, drive=True, label="custom-ops")
     _RUN_STATE["unknown_failures"] = sum(1 for f in res.failures if f.trigger is None)
     res.oracle_only += [
